@@ -13,7 +13,9 @@ J(x) == IF IsNaN(x) THEN "nan" ELSE IF IsInf(x) THEN (IF x[1] > 0 THEN "inf" ELS
 JS(s) == [k \in DOMAIN s |-> J(s[k])]
 JSS(s) == [k \in DOMAIN s |-> JS(s[k])]
 
-Probs8 == {Frac(k, 8) : k \in 0..8}
+\* eighths fall in nine different tenths-bins; 3/20 shares a bin with 1/8 and 11/20 with 1/2, so that bins holding several different
+\* probabilities occur (tools/vacuity.py: W_SeveralPerBin)
+Probs8 == {Frac(k, 8) : k \in 0..8} \cup {Frac(3, 20), Frac(11, 20)}
 PEs == Probs8 \X {Zero, One}
 Seqs(S, n) == IF n = 0 THEN {<<>>} ELSE IF n = 1 THEN {<<a>> : a \in S} ELSE IF n = 2 THEN {<<a, b>> : a \in S, b \in S}
               ELSE {<<a, b, d>> : a \in S, b \in S, d \in S}
@@ -77,4 +79,8 @@ InvEventComplement == c.kind = "event" =>
 InvEnsMonotone == c.kind = "ens" => \A k \in DOMAIN c.s : \A j \in 1..(Len(EnsThresholds) - 1) :
    LET x == EnsProb(c.s[k], EnsThresholds[j])  y == EnsProb(c.s[k], EnsThresholds[j + 1]) IN IsNaN(x) \/ (Le(x, y) /\ Ge(x, Zero) /\ Le(y, One))
 InvPitCounts == c.kind = "pit" => SumInts(PitCounts(c.s)) = Len(c.s)
+\* ---- witnesses against vacuity (tools/vacuity.py): each is the NEGATION of a lemma's antecedent and must be VIOLATED by some enumerated case ----
+W_OneValuePerBin == ~(c.kind = "brier" /\ Len(c.s) >= 2 /\ OneValuePerBin(c.s) /\ c.s[1][1] # c.s[2][1])
+W_SeveralPerBin  == ~(c.kind = "brier" /\ ~OneValuePerBin(c.s))
+W_EventBothMissing == ~(c.kind = "event" /\ Len(EventPE(c.s, "within", T1, T2)) < Len(EventPE(c.s, "below", T1, T2)))
 =============================================================================
